@@ -649,8 +649,12 @@ class Nest(MultiCrossBlockRepeat):
                 design.append(f)
         crossings = outer_block.crossings + inner_block.crossings
         inner_len = inner_block.trials_per_sample() - inner_block.common_preamble_size()
-        outer_sustain_counts = [inner_len * sc for sc in outer_block.crossing_sustain_counts]
-        crossing_sustain_counts = outer_sustain_counts + inner_block.crossing_sustain_counts
+        # A block without crossings still has a placeholder sustain count and weight;
+        # keep only the entries that belong to actual crossings.
+        n_outer = len(outer_block.crossings)
+        n_inner = len(inner_block.crossings)
+        outer_sustain_counts = [inner_len * sc for sc in outer_block.crossing_sustain_counts[:n_outer]]
+        crossing_sustain_counts = outer_sustain_counts + inner_block.crossing_sustain_counts[:n_inner]
         inner_constraints = inner_block.orig_constraints
         outer_constraints = [copy.copy(ct) for ct in outer_block.orig_constraints]
         for ct in outer_constraints:
@@ -661,7 +665,7 @@ class Nest(MultiCrossBlockRepeat):
             design=design,
             crossings=crossings,
             crossing_sustain_counts=crossing_sustain_counts,
-            crossing_weights=outer_block.crossing_weights+inner_block.crossing_weights,
+            crossing_weights=outer_block.crossing_weights[:n_outer]+inner_block.crossing_weights[:n_inner],
             constraints=all_constraints,
             require_complete_crossing = outer_block.require_complete_crossing and inner_block.require_complete_crossing,
             mode=RepeatMode.REPEAT,
@@ -702,9 +706,10 @@ class Merge(MultiCrossBlock):
                     design.append(f)
             for c in b.crossings:
                 crossings.append(c)
-            for count in b.crossing_sustain_counts:
+            # (a block without crossings still has a placeholder count and weight)
+            for count in b.crossing_sustain_counts[:len(b.crossings)]:
                 crossing_sustain_counts.append(count)
-            for w in b.crossing_weights:
+            for w in b.crossing_weights[:len(b.crossings)]:
                 crossing_weights.append(w)
             for ct in b.orig_constraints:
                 constraints.append(ct)
